@@ -552,10 +552,47 @@ class MiniEval:
         self.env = saved
         return out
 
+    _globals_cache: Dict[int, Any] = {}
+
+    def _module_global(self, e: ast.Name):
+        """the value expression of the single module-level assignment `name = <literal or call into a safe module>` of
+        the module the fragment is written in (constants hoisted out of a function)"""
+        n = e
+        while getattr(n, "parent", None) is not None:
+            n = n.parent
+        if not isinstance(n, ast.Module):
+            return None
+        vals = []
+        for st in n.body:
+            if isinstance(st, ast.Assign) and any(isinstance(t, ast.Name) and t.id == e.id for t in st.targets):
+                vals.append(st.value)
+            elif isinstance(st, ast.AnnAssign) and isinstance(st.target, ast.Name) and st.target.id == e.id and st.value is not None:
+                vals.append(st.value)
+        if len(vals) != 1:
+            return None
+        g = vals[0]
+        if isinstance(g, ast.Call) and isinstance(g.func, ast.Attribute) and isinstance(g.func.value, ast.Name) and g.func.value.id in SAFE_MODULES and all(isinstance(a, ast.Constant) for a in g.args) and not g.keywords:
+            return g
+        try:
+            ast.literal_eval(g)
+            return g
+        except (ValueError, TypeError, SyntaxError, MemoryError, RecursionError):
+            return None
+
     def _ask(self, e: ast.AST) -> Any:
         try:
             v = self.oracle(e, self)
         except Unknown:
+            if isinstance(e, ast.Name):
+                g = self._module_global(e)
+                if g is not None:
+                    pure_call = isinstance(g, ast.Call) and isinstance(g.func, ast.Attribute) and isinstance(g.func.value, ast.Name) and g.func.value.id in SAFE_MODULES
+                    if pure_call or not self.permissive:
+                        key = id(g)
+                        cache = MiniEval._globals_cache
+                        if key not in cache:
+                            cache[key] = (g, self.ev(g))
+                        return cache[key][1]
             if self.permissive and isinstance(e, ast.Name):
                 return Rec("name", e.id)
             raise AnalysisError(f"{self.where}: `{u(e)}` is not known to the evaluator (unrecognised input of the fragment)")
